@@ -334,104 +334,160 @@ func checkCompactionClamp(p *Prog, r *Roles, res *Result, rule string) {
 			res.und(rule, construct, p.pos(impl.Pos()), "cannot find the revision handed to the scanner")
 			continue
 		}
-		fromMin := derivesFrom(p, handed, func(v ssa.Value) bool {
-			c, ok := v.(*ssa.Call)
-			return ok && p.isCallToMethod(c, minRev)
-		})
-		fromCommitted := derivesFrom(p, handed, func(v ssa.Value) bool {
-			c, ok := v.(*ssa.Call)
-			return ok && (p.isCallToMethod(c, r.TSOGetRevision) || p.isCallToMethod(c, r.BGetCur))
-		})
-		usesMin := derivesFrom(p, handed, func(v ssa.Value) bool {
-			c, ok := v.(*ssa.Call)
-			if !ok {
-				return false
-			}
-			sc := c.Common().StaticCallee()
-			if sc == nil || !isMinFn(sc) {
-				return false
-			}
-			// one operand is MinRevision()-1
-			for _, a := range c.Common().Args {
-				if bo, ok := resolve(a).(*ssa.BinOp); ok && bo.Op == token.SUB {
-					if k, ok := constInt(bo.Y); ok && k == 1 {
-						if mc, ok := resolve(bo.X).(*ssa.Call); ok && p.isCallToMethod(mc, minRev) {
-							return true
+		// the clamp may live in a helper (target := clampRevision(requested)): judge the helper's returns in terms of its
+		// own parameter
+		type handedAt struct {
+			v  ssa.Value
+			at *ssa.BasicBlock
+		}
+		cases := []handedAt{{handed, site.Block()}}
+		if hc, ok := resolve(handed).(*ssa.Call); ok {
+			if h := hc.Common().StaticCallee(); h != nil && h.Blocks != nil && h.Pkg == impl.Pkg && h.Signature.Results().Len() == 1 {
+				for j, a := range hc.Common().Args {
+					if j < len(h.Params) && resolve(a) == ssa.Value(revParam) && isUint64(h.Params[j].Type()) {
+						revParam = h.Params[j]
+						cases = nil
+						for _, b := range h.Blocks {
+							if ret, ok := b.Instrs[len(b.Instrs)-1].(*ssa.Return); ok {
+								cases = append(cases, handedAt{ret.Results[0], b})
+							}
 						}
+						break
 					}
 				}
 			}
-			return false
-		})
-		raw := p.resolveDeep(handed) == ssa.Value(revParam)
-		// the client's revision may flow on only where it is known not to exceed the committed revision
-		isCommitted := func(v ssa.Value) bool {
-			c, ok := resolve(v).(*ssa.Call)
-			return ok && (p.isCallToMethod(c, r.TSOGetRevision) || p.isCallToMethod(c, r.BGetCur))
 		}
-		boundedAt := func(facts []condFact) bool {
-			for _, cf := range facts {
-				if cf.X == nil {
-					continue
+		judge := func(handed ssa.Value, at *ssa.BasicBlock) string {
+			fromMin := derivesFrom(p, handed, func(v ssa.Value) bool {
+				c, ok := v.(*ssa.Call)
+				return ok && p.isCallToMethod(c, minRev)
+			})
+			fromCommitted := derivesFrom(p, handed, func(v ssa.Value) bool {
+				c, ok := v.(*ssa.Call)
+				return ok && (p.isCallToMethod(c, r.TSOGetRevision) || p.isCallToMethod(c, r.BGetCur))
+			})
+			usesMin := derivesFrom(p, handed, func(v ssa.Value) bool {
+				c, ok := v.(*ssa.Call)
+				if !ok {
+					return false
 				}
-				if resolve(cf.X) == ssa.Value(revParam) && isCommitted(cf.Y) && ((cf.Op == token.GTR && !cf.Want) || (cf.Op == token.LEQ && cf.Want) || (cf.Op == token.LSS && cf.Want)) {
-					return true
+				sc := c.Common().StaticCallee()
+				if sc == nil || !isMinFn(sc) {
+					return false
 				}
-				if resolve(cf.Y) == ssa.Value(revParam) && isCommitted(cf.X) && ((cf.Op == token.LSS && !cf.Want) || (cf.Op == token.GEQ && cf.Want) || (cf.Op == token.GTR && cf.Want)) {
-					return true
-				}
-			}
-			return false
-		}
-		var unclamped func(v ssa.Value, facts []condFact, d int, seen map[ssa.Value]bool) bool
-		unclamped = func(v ssa.Value, facts []condFact, d int, seen map[ssa.Value]bool) bool {
-			v = resolve(v)
-			if d > 10 || seen[v] {
-				return false
-			}
-			seen[v] = true
-			switch x := v.(type) {
-			case *ssa.Parameter:
-				return x == revParam && !boundedAt(facts)
-			case *ssa.Phi:
-				for i, e := range x.Edges {
-					pred := x.Block().Preds[i]
-					fs := append(append([]condFact{}, facts...), localFacts(pred)...)
-					if iff := ifOf(pred); iff != nil {
-						for s := 0; s < 2; s++ {
-							if pred.Succs[s] == x.Block() {
-								fs = append(fs, expandFact(edgeFact(edge{pred, s}), 0)...)
+				// one operand is MinRevision()-1
+				for _, a := range c.Common().Args {
+					if bo, ok := resolve(a).(*ssa.BinOp); ok && bo.Op == token.SUB {
+						if k, ok := constInt(bo.Y); ok && k == 1 {
+							if mc, ok := resolve(bo.X).(*ssa.Call); ok && p.isCallToMethod(mc, minRev) {
+								return true
 							}
 						}
 					}
-					if unclamped(e, fs, d+1, seen) {
+				}
+				return false
+			})
+			raw := p.resolveDeep(handed) == ssa.Value(revParam)
+			// the client's revision may flow on only where it is known not to exceed the committed revision
+			isCommitted := func(v ssa.Value) bool {
+				c, ok := resolve(v).(*ssa.Call)
+				return ok && (p.isCallToMethod(c, r.TSOGetRevision) || p.isCallToMethod(c, r.BGetCur))
+			}
+			boundedAt := func(facts []condFact) bool {
+				for _, cf := range facts {
+					if cf.X == nil {
+						continue
+					}
+					if resolve(cf.X) == ssa.Value(revParam) && isCommitted(cf.Y) && ((cf.Op == token.GTR && !cf.Want) || (cf.Op == token.LEQ && cf.Want) || (cf.Op == token.LSS && cf.Want)) {
+						return true
+					}
+					if resolve(cf.Y) == ssa.Value(revParam) && isCommitted(cf.X) && ((cf.Op == token.LSS && !cf.Want) || (cf.Op == token.GEQ && cf.Want) || (cf.Op == token.GTR && cf.Want)) {
 						return true
 					}
 				}
-			case *ssa.Call:
-				if sc := x.Common().StaticCallee(); sc != nil && (isMinFn(sc) || isMaxFn(sc)) {
-					for _, a := range x.Common().Args {
-						if unclamped(a, facts, d+1, seen) {
+				return false
+			}
+			var unclamped func(v ssa.Value, facts []condFact, d int, seen map[ssa.Value]bool) bool
+			unclamped = func(v ssa.Value, facts []condFact, d int, seen map[ssa.Value]bool) bool {
+				v = resolve(v)
+				if d > 10 || seen[v] {
+					return false
+				}
+				seen[v] = true
+				switch x := v.(type) {
+				case *ssa.Parameter:
+					return x == revParam && !boundedAt(facts)
+				case *ssa.Phi:
+					for i, e := range x.Edges {
+						pred := x.Block().Preds[i]
+						fs := append(append([]condFact{}, facts...), localFacts(pred)...)
+						if iff := ifOf(pred); iff != nil {
+							for s := 0; s < 2; s++ {
+								if pred.Succs[s] == x.Block() {
+									fs = append(fs, expandFact(edgeFact(edge{pred, s}), 0)...)
+								}
+							}
+						}
+						if unclamped(e, fs, d+1, seen) {
 							return true
 						}
 					}
+				case *ssa.Call:
+					if sc := x.Common().StaticCallee(); sc != nil && (isMinFn(sc) || isMaxFn(sc)) {
+						for _, a := range x.Common().Args {
+							if unclamped(a, facts, d+1, seen) {
+								return true
+							}
+						}
+					}
+				case *ssa.BinOp:
+					return unclamped(x.X, facts, d+1, seen) || unclamped(x.Y, facts, d+1, seen)
+				case *ssa.Convert:
+					return unclamped(x.X, facts, d+1, seen)
 				}
-			case *ssa.BinOp:
-				return unclamped(x.X, facts, d+1, seen) || unclamped(x.Y, facts, d+1, seen)
-			case *ssa.Convert:
-				return unclamped(x.X, facts, d+1, seen)
+				return false
 			}
-			return false
+			free := unclamped(handed, localFacts(at), 0, map[ssa.Value]bool{})
+			switch {
+			case raw:
+				return "raw"
+			case !fromCommitted:
+				return "nocommitted"
+			case free:
+				return "free"
+			case !fromMin || !usesMin:
+				return "nomin"
+			}
+			return ""
 		}
-		free := unclamped(handed, localFacts(site.Block()), 0, map[ssa.Value]bool{})
-		switch {
-		case raw:
+		// a return that hands on the bound by the committed revision alone is fine when another return adds the queue
+		// bound (early return when the queue is empty): the queue bound must be present on some return, the committed
+		// bound on all
+		worst, anyMin := "", false
+		for _, cs := range cases {
+			k := judge(cs.v, cs.at)
+			if k == "" {
+				anyMin = true
+				continue
+			}
+			if k == "nomin" && len(cases) > 1 && guardedByEmptyQueue(p, cs.at, minRev) {
+				continue
+			}
+			if worst == "" || k != "nomin" {
+				worst = k
+			}
+		}
+		if worst == "" && !anyMin {
+			worst = "nomin"
+		}
+		switch worst {
+		case "raw":
 			res.bad(rule, construct, p.pos(site.Pos()), "the raw requested revision is handed to the scanner: compaction can run past the committed revision and past an unresolved unknown-outcome write")
-		case !fromCommitted:
+		case "nocommitted":
 			res.bad(rule, construct, p.pos(site.Pos()), "the compaction revision is not clamped against the committed revision")
-		case free:
+		case "free":
 			res.bad(rule, construct, p.pos(site.Pos()), "the client's revision reaches the scanner on a path where it is not known to be <= the committed revision: a compaction above the committed revision removes deletion records that an in-flight create still relies on")
-		case !fromMin || !usesMin:
+		case "nomin":
 			res.bad(rule, construct, p.pos(site.Pos()), "the compaction revision is not capped by min(MinRevision()-1, .) of the repair queue: the versions an unknown-outcome repair needs can be compacted away")
 		default:
 			res.ok(rule, construct, p.pos(site.Pos()), "derives from the committed revision and from min(MinRevision()-1, .)")
@@ -447,7 +503,12 @@ func checkCompactionClamp(p *Prog, r *Roles, res *Result, rule string) {
 					return false
 				}
 				// only the read(s) the compaction revision is bounded by
-				return derivesFrom(p, handed, func(v ssa.Value) bool { return v == ssa.Value(c) }) || usedInFactsOn(c, revParam)
+				for _, cs := range cases {
+					if derivesFrom(p, cs.v, func(v ssa.Value) bool { return v == ssa.Value(c) }) {
+						return true
+					}
+				}
+				return usedInFactsOn(c, revParam)
 			}
 			isMinRead := func(i ssa.Instruction) bool {
 				c, ok := i.(*ssa.Call)
@@ -1047,4 +1108,22 @@ func checkQueueDiscipline(p *Prog, res *Result) {
 			res.ok("C09-R7", construct, p.pos(f.Pos()), "on the non-empty branch <tail>.next = node is reached before return")
 		}
 	}
+}
+
+// guardedByEmptyQueue: block b is reached only when MinRevision() returned 0 (no unknown-outcome write is queued).
+func guardedByEmptyQueue(p *Prog, b *ssa.BasicBlock, minRev *types.Func) bool {
+	for _, cf := range dominatingFacts(b) {
+		if cf.X == nil {
+			continue
+		}
+		x, y := cf.X, cf.Y
+		if isZeroConst(x) {
+			x, y = y, x
+		}
+		c, ok := resolve(x).(*ssa.Call)
+		if ok && p.isCallToMethod(c, minRev) && isZeroConst(y) && ((cf.Op == token.EQL && cf.Want) || (cf.Op == token.NEQ && !cf.Want)) {
+			return true
+		}
+	}
+	return false
 }
